@@ -203,7 +203,7 @@ class ConnectionEvents(event.Events[ConnectionEventsTarget]):
                 "event listeners accept the 'retval=True' "
                 "argument."
             )
-        event_key.with_wrapper(fn).base_listen()
+        event_key.with_wrapper(fn).base_listen(**kw)
 
     @event._legacy_signature(
         "1.4",
@@ -660,7 +660,7 @@ class DialectEvents(event.Events[Dialect]):
         target = event_key.dispatch_target
 
         target._has_events = True
-        event_key.base_listen()
+        event_key.base_listen(**kw)
 
     @classmethod
     def _accept_with(
